@@ -303,6 +303,67 @@ def encoder_files(wd, seed, n):
 PLANS["C19"] = c19
 
 
+def textclass(t, n=70):
+    out, innum = [], False
+    for ch in t:
+        if ch.isdigit():
+            if not innum:
+                out.append("#")
+            innum = True
+        else:
+            innum = False
+            out.append("_" if ch == " " else ch if (ch.isalnum() or ch in "_-:.,=()[]<>+") else "")
+    return "".join(out)[:n]
+
+
+def c02(prop, tier, seed):
+    import multiprocessing
+    from oracles import c02 as oracle
+    t0 = time.time()
+    wd = workdir(prop, tier)
+    res = Result()
+    try:
+        files_dir = os.path.join(wd, "files")
+        os.makedirs(files_dir)
+        cases, secs = (4000, 40) if tier == "quick" else (80000, 400)
+        b = build("checked")
+        res.merge(run_shards(b, "roundtrip", ["--mode", "c02", "--filesdir", files_dir], cases, secs, seed, tier, wd, "export", prop))
+        pairs = [(f, f[:-4] + ".intent.json") for f in sorted(glob.glob(os.path.join(files_dir, "*.e57")))]
+        rule_counts, decoded_bytes, points, blobs = {}, 0, 0, 0
+        with multiprocessing.Pool(NCPU) as pool:
+            for path, (problems, st) in pool.imap_unordered(oracle.worker, pairs, chunksize=16):
+                decoded_bytes += st.get("bytes", 0)
+                points += st.get("points", 0)
+                blobs += st.get("blobs", 0)
+                case = int(os.path.basename(path)[5:13])
+                for rule, text in problems:
+                    if rule == "ORACLE-ERROR":
+                        raise Infra("C02 oracle crashed on %s: %s" % (path, text))
+                    sig = f"{prop}/{rule}/{textclass(text)}"
+                    rule_counts[rule] = rule_counts.get(rule, 0) + 1
+                    res.sigcounts[sig] = res.sigcounts.get(sig, 0) + 1
+                    if sum(1 for v in res.viols if v["sig"] == sig) < 3:
+                        res.viols.append({"prop": prop, "sig": sig, "detail": f"file of case {case}: {text}", "workload": "roundtrip", "seed": seed, "case": case,
+                                          "args": [b, "roundtrip", "--mode", "c02", "--seed", str(seed), "--tier", tier, "--filesdir", "/tmp"]})
+                if len(res.samples) < 3 and st.get("points"):
+                    res.samples.append({"file_case": case, "bytes": st.get("bytes"), "points_decoded": st.get("points"), "blobs_decoded": st.get("blobs"), "lint_problems": [list(p) for p in problems[:3]]})
+        res.stats["files_decoded"] = len(pairs)
+        res.stats["bytes_decoded"] = decoded_bytes
+        res.stats["points_decoded_and_compared"] = points
+        res.stats["blobs_decoded_and_compared"] = blobs
+    finally:
+        cleanup(wd)
+    rule = ("files finalized successfully by generated writer programs (a mixture: section-start residue sweep over all 255 four-aligned residues mod 1020, metadata-heavy with wild strings, blob-heavy, width-focused) are exported together with their intent and decoded by the independent Python implementation e57ref (own CRC-32C, pager, bit codec, expat in namespace mode): rules R1 whole pages, R2 every page CRC, R3 header fields, R4 XML well-formed/namespaces/types, R5 offsets land on sections of the right kind outside checksums and 4-aligned, R6 section/packet tiling and padding, R7 decoded points = intent (+ exact stream byte counts), R8 blob headers (reference convention) and bytes, R9 no overlaps, R10 metadata = intent; "
+            "non-trivial = exported file decoded; distinct = distinct files decoded (each generated from a distinct case seed), measured as distinct program shapes")
+    extra = {"files_decoded": res.stats.get("files_decoded", 0), "bytes_decoded": res.stats.get("bytes_decoded", 0), "points_decoded_and_compared": res.stats.get("points_decoded_and_compared", 0), "blobs_decoded_and_compared": res.stats.get("blobs_decoded_and_compared", 0),
+             "section_start_residues_seen": len(res.nums.get("section_start_mod1020", ())), "xml_start_residues_seen": len(res.nums.get("xml_start_mod1020", ()))}
+    assumptions = ["the decoder is calibrated on the bundled reference files (all valid ones decode without a lint finding; checked by ./check --setup)", "things the statement does not list (example values inside prototype elements, spelling of non-finite floats) are not judged", "blob section length convention = 16 + length rounded up to 4, as written by libE57Format (read off testdata/tiny_pc_and_images.e57)"]
+    return finish(prop, tier, seed, level(prop), res, rule, min(len(res.nums.get("program_shape", ())), res.stats.get("files_decoded", 0)), res.stats.get("files_decoded", 0), assumptions, t0, extra)
+
+
+PLANS["C02"] = c02
+
+
 def run(prop, tier, seed):
     if prop not in PLANS:
         log(f"no check registered for {prop}")
